@@ -158,3 +158,4 @@ SUBCHECKS = [
     SubCheck("sweep125", judge, shards_sweep, strategy=lambda sh: case_st(sh["la"], sh["lb"], sweep=True)),
 ]
 EXHAUSTIVE = {"l_pairs": "all 25 ordered (l_a,l_b) in 0..4", "sweep125": "all 125 order triples (0..4)^3 per swept cell"}
+EXPECTED_CLASSES = ["moment/origin-near-centre", "moment/origin-far", "moment/unsorted-list", "moment/duplicate-triples", "moment/transform"]
